@@ -373,6 +373,15 @@ def check_once(res, prop, cm, roles, m, single, top, an):
         site = inner_clocks[0].site if inner_clocks else site_of_seg(top, m)
         V(res, prop, 'R-SIB-ONCE', cm, m.key(), 'clock sampled %s' % ('inside the range loop' if inner_clocks else '%d times (single form: %d)' % (n_top, n_single)),
           site, 'a range operation acts at one instant: one clock sample outside the loop')
+    # the whole loop inside one critical section (the range acts at one instant also for other threads)
+    import locks
+    accs, facts = locks.collect(an, cm, roles, m)
+    okl = not facts['lock_in_loop'] and facts['max_regions'] <= 1
+    res.ob('R-SIB-ONCE', ok=okl)
+    if not okl:
+        e = facts['lock_in_loop'][0] if facts['lock_in_loop'] else None
+        V(res, prop, 'R-SIB-ONCE', cm, m.key(), 'lock taken per element instead of once around the whole range',
+          e[2] if e else site_of_seg(top, m), 'other threads can observe / interleave with a partially applied range')
     # fifo-style forwarding: the loop runs over begin(range) .. end(range) of the same parameter
     rng_params = [p.get('name') for p in m.params if p.get('name') not in ('a', 'peek', 'begin', 'end', 'distance')]
     if m.name in SINGLE_OF and cm.name == 'fifo_cache' and rng_params:
